@@ -669,6 +669,51 @@ fn sc_c15(seed: u64, thorough: bool) -> Vec<Scenario> {
     }]
 }
 
+/// Collision hunter: with the production key [0,0] an attacker can search offline for two
+/// unrelated tuples whose 32-bit cookies are equal (birthday bound ~2^16 tuples). The table is
+/// keyed by the cookie, so the second flow rides on the first one's entry.
+fn sc_c08(seed: u64) -> Vec<Scenario> {
+    use std::collections::HashMap;
+    let key = [0u64, 0u64];
+    let mut rng = Rng::new(derive(seed, "directed-c08", 0));
+    let mut seen: HashMap<u32, (u32, u16)> = HashMap::new();
+    let mut found: Option<((u32, u16), (u32, u16))> = None;
+    let dst = IpAddr::V4(node4());
+    for _ in 0..2_000_000u32 {
+        let ip = 0xc633_6400u32 | (rng.u32() & 0xff) | ((rng.u32() & 0xff) << 16 & 0x00ff_0000); // 198.x.100.y-ish spoofable sources
+        let sport = rng.u16().max(1024);
+        let c = predict_cookie(&key, &IpAddr::V4(Ipv4Addr::from(ip)), &dst, sport, 80);
+        if let Some(prev) = seen.get(&c) {
+            if prev.0 != ip && prev.1 != sport {
+                found = Some((*prev, (ip, sport)));
+                break;
+            }
+        }
+        seen.insert(c, (ip, sport));
+    }
+    let (a, b) = match found {
+        Some(x) => x,
+        None => return Vec::new(),
+    };
+    let fa = Flow { src: IpAddr::V4(Ipv4Addr::from(a.0)), dst, sport: a.1, dport: 80 };
+    let fb = Flow { src: IpAddr::V4(Ipv4Addr::from(b.0)), dst, sport: b.1, dport: 80 };
+    let ck = fa.cookie(&key);
+    let steps = vec![
+        Step::Frame(fa.seg(100, 0, F_SYN, &[])),
+        Step::Frame(fb.seg(200, 0, F_SYN, &[])),
+        Step::Frame(fa.seg(101, ck.wrapping_add(1), F_PSH | F_ACK, b"GET / HTTP/1.1\r\n")),
+        // B never presented its cookie: wrong acknowledgement number, yet it completes A's request
+        Step::Frame(fb.seg(201, 0x1234_5678, F_PSH | F_ACK, b"\r\n")),
+    ];
+    vec![Scenario {
+        name: "cookie-collision-hunter".into(),
+        cfg: cfg(Build::Release, LoggerKind::None, 0, key),
+        start_ms: START,
+        steps,
+        samples: 16,
+    }]
+}
+
 pub fn scenarios(prop: &str, tier: &str, seed: u64) -> Vec<Scenario> {
     let thorough = tier == "thorough";
     match prop {
@@ -686,6 +731,7 @@ pub fn scenarios(prop: &str, tier: &str, seed: u64) -> Vec<Scenario> {
         }
         "C05" => sc_c05(seed, thorough),
         "C11" => sc_c11(seed, thorough),
+        "C08" => sc_c08(seed),
         "C15" => sc_c15(seed, thorough),
         "C10" | "C16" => sc_c10(seed, thorough),
         "C12" => sc_c05(seed, false),
